@@ -185,7 +185,7 @@ func (jc jsonCmp) cmpScalar(v val.Value, got interface{}) string {
 	case val.Decimal64:
 		return num(model.CanonVal(x), true)
 	case val.Int64, val.UInt64:
-		return num(v.String(), true)
+		return num(model.CanonVal(v), true)
 	case val.NotEmptyType:
 		a, ok := got.([]interface{})
 		if !ok || len(a) != 1 || a[0] != nil {
@@ -200,7 +200,7 @@ func (jc jsonCmp) cmpScalar(v val.Value, got interface{}) string {
 		return ""
 	}
 	if v.Format().IsNumeric() {
-		return num(v.String(), false)
+		return num(model.CanonVal(v), false)
 	}
 	return "unsupported-by-harness:" + v.Format().String()
 }
